@@ -149,7 +149,7 @@ pub fn spec(c: &mut Cur, depth: u32, cfg: GenCfg) -> Spec {
       let w = c.below(map.sources.len());
       map.root = None;
       map.sources[w] = name.clone();
-      let has_content = !map.contents.is_empty();
+      let has_content = w < map.contents.len();
       if has_content {
         map.contents[w] = orig.clone();
       }
@@ -277,7 +277,7 @@ pub fn program(data: &[u8]) -> (crate::props::c18::Program, Vec<u8>) {
   let threads = (0..nthreads)
     .map(|_| {
       (0..1 + c.below(3))
-        .map(|_| match c.below(12) {
+        .map(|_| match c.below(13) {
           0 | 1 => Op::Source,
           2 => Op::Size,
           3 | 4 => Op::Map(c.u8() % 2 == 0),
@@ -285,7 +285,8 @@ pub fn program(data: &[u8]) -> (crate::props::c18::Program, Vec<u8>) {
           7 | 8 => Op::Hash,
           9 => Op::CloneSource,
           10 => Op::CloneMap(c.u8() % 2 == 0),
-          _ => Op::EqTwin,
+          11 => Op::EqTwin,
+          _ => Op::EqShared(c.u8() % 2 == 0),
         })
         .collect()
     })
